@@ -106,7 +106,7 @@ def _copy_with_task():
 
         check_call(it, "FermionicArray.copy_with", it.getattr(x, "copy_with"), [], post=post)
 
-    return Task("C14.FermionicArray.copy_with", ["C14"], [FA + ".copy_with", "abelian_core.AbelianArray.copy_with"], body, axioms=block_axioms)
+    return Task("C14.FermionicArray.copy_with", ["C14", "C09"], [FA + ".copy_with", "abelian_core.AbelianArray.copy_with"], body, axioms=block_axioms)
 
 
 # ------------------------------------------------------------------ phase_sync
